@@ -117,12 +117,87 @@ static void excl(void) {
 	char cmd[700]; snprintf(cmd, sizeof cmd, "rm -rf '%s'", base); if (system(cmd)) {}
 }
 
+/* ------------------------------------------------------------ entries whose length does not fit the format's 32-bit length fields
+ * The source buffer is virtual: one 2 MiB memfd mapped 2049 times back to back, so a 4 GiB key or value costs no memory unless the
+ * writer accepts it.  An add with such a length may be refused (then it must change nothing); if it is accepted, the finished file
+ * must hold exactly that entry, like any other.  (The pinned code accepted it and stored the length modulo 2^32: finding F12.) */
+#include <sys/mman.h>
+#define HUGE_CHUNK (2u << 20)
+static uint8_t *huge_src(size_t want) {
+	size_t chunks = want / HUGE_CHUNK + 2, total = chunks * HUGE_CHUNK;
+	int fd = memfd_create("verif-huge", 0); if (fd < 0 || ftruncate(fd, HUGE_CHUNK)) abort();
+	uint8_t *pat = mmap(NULL, HUGE_CHUNK, PROT_READ | PROT_WRITE, MAP_SHARED, fd, 0); if (pat == MAP_FAILED) abort();
+	for (size_t i = 0; i < HUGE_CHUNK; i++) pat[i] = (uint8_t) (0x40 + ((i * 2654435761u) >> 13) % 59);
+	/* the first bytes look like a well-formed follow-up entry, so that a truncated length turns the rest into entries nobody added */
+	static const uint8_t forged[] = { 0x00, 0x06, 0x01, 'F', 'O', 'R', 'G', 'E', 'D', 'x' };
+	memcpy(pat + 10, forged, sizeof forged);
+	munmap(pat, HUGE_CHUNK);
+	uint8_t *base = mmap(NULL, total, PROT_NONE, MAP_PRIVATE | MAP_ANONYMOUS | MAP_NORESERVE, -1, 0); if (base == MAP_FAILED) abort();
+	for (size_t c = 0; c < chunks; c++) if (mmap(base + c * HUGE_CHUNK, HUGE_CHUNK, PROT_READ, MAP_SHARED | MAP_FIXED, fd, 0) == MAP_FAILED) abort();
+	close(fd);
+	return base;
+}
+static uint8_t huge_byte(const uint8_t *base, size_t i) { return base[i % HUGE_CHUNK]; }
+typedef struct { int which; size_t len; } hcase;
+static void hrender(char *b, size_t n, void *ctx) { hcase *h = ctx; snprintf(b, n, "H:%d:%zu", h->which, h->len); }
+static void huge_one(int which, size_t len) {
+	hcase hc = { which, len };
+	vh_case_begin(hrender, &hc);
+	if (!vh_batch_fork()) { vh_case_end(); return; }           /* parent: the child did the work (memory of an accepted entry is released with it) */
+	vh_watchdog_s = 600;
+	uint8_t *src = huge_src(len);
+	int fd = tbl_memfd();
+	struct mtbl_writer_options *o = mtbl_writer_options_init(); mtbl_writer_options_set_compression(o, MTBL_COMPRESSION_NONE);
+	struct mtbl_writer *w = mtbl_writer_init_fd(fd, o); mtbl_writer_options_destroy(&o);
+	mtbl_res r0 = mtbl_writer_add(w, (const uint8_t *) "\x01", 1, (const uint8_t *) "first", 5);
+	mtbl_res r1 = which == 0 ? mtbl_writer_add(w, (const uint8_t *) "b", 1, src, len)      /* huge value */
+	                         : mtbl_writer_add(w, src, len, (const uint8_t *) "v", 1);     /* huge key: starts with a byte >= 0x40, sorts between 01 and ff ff */
+	vh_case_seq++;
+	mtbl_res r2 = mtbl_writer_add(w, (const uint8_t *) "\xff\xff", 2, (const uint8_t *) "last", 4);
+	mtbl_writer_destroy(&w);
+	vh_case_seq++;
+	if (r0 != mtbl_res_success || r2 != mtbl_res_success) vh_violation("huge-neighbours", "the ordinary adds around the %zu-byte %s were refused (%d, %d)", len, which ? "key" : "value", r0, r2);
+	VH_COUNT(r1 == mtbl_res_success ? "oversize_accepted" : "oversize_refused", 1);
+	struct mtbl_reader *rd = mtbl_reader_init_fd(fd, NULL);
+	if (!rd) vh_violation("huge-unreadable", "file written around a %zu-byte %s does not open", len, which ? "key" : "value");
+	else {
+		struct mtbl_iter *it = mtbl_source_iter(mtbl_reader_source(rd)); const uint8_t *k, *v; size_t kl, vl; int n = 0; bool ok = true; char what[200] = "";
+		while (ok && mtbl_iter_next(it, &k, &kl, &v, &vl) == mtbl_res_success) {
+			vh_case_seq++;
+			if (n == 0) ok = kl == 1 && k[0] == 1 && vl == 5;
+			else if (r1 == mtbl_res_success && n == 1) {
+				size_t xl = which == 0 ? vl : kl; const uint8_t *x = which == 0 ? v : k;
+				ok = xl == len && (which == 0 ? (kl == 1 && k[0] == 'b') : (vl == 1 && v[0] == 'v'));
+				if (ok) { for (size_t i = 0; i < len; i += 4093) if (x[i] != huge_byte(src, i)) { ok = false; break; } if (x[len - 1] != huge_byte(src, len - 1)) ok = false; }
+				if (!ok) snprintf(what, sizeof what, "entry #1 has key length %zu and value length %zu", kl, vl);
+			}
+			else if (n == (r1 == mtbl_res_success ? 2 : 1)) ok = kl == 2 && k[0] == 0xff && vl == 4;
+			else ok = false;
+			if (!ok && !what[0]) snprintf(what, sizeof what, "entry #%d has key length %zu (first byte %02x) and value length %zu", n, kl, kl ? k[0] : 0, vl);
+			n++;
+		}
+		if (ok && n != (r1 == mtbl_res_success ? 3 : 2)) { ok = false; snprintf(what, sizeof what, "the file holds %d entries", n); }
+		if (!ok) vh_violation("huge-entry", "add of a %zu-byte %s returned %s, but the finished file does not hold exactly the accepted entries: %s", len, which ? "key" : "value", r1 == mtbl_res_success ? "success" : "failure", what);
+		mtbl_iter_destroy(&it); mtbl_reader_destroy(&rd);
+	}
+	close(fd);
+	VH_COUNT("cases", 1); VH_COUNT("transitions", 3); VH_COUNT("huge_cases", 1);
+	vh_sig(vh_mix(4242, which * 16 + (len >> 32) * 4 + (len & 3)));
+	vh_case_end();
+	vh_batch_exit();
+}
+static void huge(void) {
+	static const size_t L[] = { (size_t) 1 << 32, ((size_t) 1 << 32) + 10 };
+	for (int which = 0; which < 2; which++) for (int i = 0; i < 2; i++) huge_one(which, L[i]);
+}
+
 int main(int argc, char **argv) {
 	vh_init(argc, argv);
 	P08 = !strcmp(vh_prop, "C08"); P10 = !strcmp(vh_prop, "C10"); if (!P08 && !P10) P08 = P10 = 1;
 	gcase c;
 	if (vh_case_arg) {
 		if (vh_case_arg[0] == 'X') { excl(); return vh_finish(); }
+		if (vh_case_arg[0] == 'H') { int which; size_t len; if (sscanf(vh_case_arg, "H:%d:%zu", &which, &len) != 2) return 2; huge_one(which, len); return vh_finish(); }
 		const char *s = vh_case_arg; int off = 0;
 		if (sscanf(s, "G:%d:%d:%n", &c.comp, &c.restart, &off) < 2) return 2;
 		c.pool = c.restart / 100; c.restart %= 100;
@@ -131,6 +206,7 @@ int main(int argc, char **argv) {
 		run(&c); return vh_finish();
 	}
 	if (vh_shard == 0 && P08) excl();
+	if (vh_shard == 1 % vh_nshards && P08) huge();
 	int maxn = vh_thorough ? 6 : 4;
 	uint64_t idx = 0;
 	for (int n = 0; n <= maxn; n++) {
